@@ -3,7 +3,7 @@ from standin.props.roundtrip import *
 from flamapy.metamodels.fm_metamodel.transformations import UVLWriter, UVLReader
 
 UVL_LOGIC = ['AND', 'OR', 'IMPLIES', 'REQUIRES', 'EXCLUDES', 'EQUIVALENCE']
-VALUES = [None, True, False, 0, 3, -7, 2.5, 0.25, 'text', 'two words', [1, 2], [1, 'a'], [True, 2.5], {'k': 1}, {'k': {'n': 2}}, [[1], [2]]]
+VALUES = [None, True, False, 0, 3, -7, 2.5, 0.25, 'text', 'two words', 'v1.2', 'a,b {c} [d] "q" #1', 'naïve ü', ['x.y'], [1, 2], [1, 'a'], [True, 2.5], {'k': 1}, {'k': {'n': 2}}, [[1], [2]]]
 UVL_HOSTILE = ['my root', 'a-b', '1st', '_under', 'features', 'mandatory', 'true', 'Boolean', 'and', 'OR', 'NOT', 'Ünï', '日本', 'p(q)', 'a,b',
                'sum', 'A AND B', 'requires', 'x y z', '#tag', 'a/b', 'AND', 'xor', 'IMPLIES1', 'Real', 'cardinality', 'constraints',
                'alternative', 'optional', 'or', 'false', 'len', 'avg', 'String', 'Integer', 'namespace', 'imports', 'include', 'as', 'e1', '2x', 'a b']
@@ -96,11 +96,25 @@ def cardinality_like(v):
     return False
 
 
+def has_dotted_string(v):
+    if isinstance(v, str):
+        return '.' in v
+    if isinstance(v, list):
+        return any(has_dotted_string(x) for x in v)
+    if isinstance(v, dict):
+        return any(has_dotted_string(x) for x in v.values())
+    return False
+
+
 def known_region(desc):
     for f, _, _ in d_features(desc):
         for a in f.get('attrs', []):
             if cardinality_like(a.get('value')):
                 return 'C01_cardinality_like_list'
+    for f, _, _ in d_features(desc):
+        for a in f.get('attrs', []):
+            if has_dotted_string(a.get('value')):
+                return 'C01_string_with_dot'
     return None
 
 
